@@ -15,6 +15,7 @@
    Close discards what is held and leaves the latch as it is). *)
 From Verif Require Import Base.Prelude Misc.Level Lts.Trigger Proofs.TriggerP Misc.LockTypes Gen.LockShapes Proofs.GenLockP.
 From Coq Require Import Permutation.
+From Verif Require Base.GoSem Base.GoEff Base.GoExt Gen.TriggerSrc Proofs.SrcTriggerP.
 Open Scope Z_scope.
 
 (* The refinement.  For ALL histories of WriteLevel/Trigger/Close whose lines are
@@ -173,6 +174,104 @@ Example C15_ex_concurrent :
     [(Some 0, [97; 10]%N); (Some 0, [99; 10]%N); (Some 3, [98; 10]%N)].
 Proof. vm_compute. repeat split; reflexivity. Qed.
 
+(* the model against the source.  Gen/TriggerSrc.v is the machine translation of trigger / Trigger / Close /
+   WriteLevel of writer.go (regenerated by harness/cmd/srcgen on every run; semantics Base/GoSem.v, Base/GoExt.v: the
+   destination behind the embedded io.Writer is opaque, every call through it is logged and answered by the
+   environment [ans] at the index "length of the log").  The model's script is the one the environment induces
+   ([script_of ans k n]: the error/success outcome of the next n destination calls when the log has length k); the
+   model's state is read off the receiver ([abs_state]: buf, triggered; [cfg_of]: ConditionalLevel, TriggerLevel, the
+   comma-ok flag of w.Writer.(LevelWriter)); [upd_w w b t cs] is w with buf := b, triggered := t and cs appended to
+   the log, every other field as in w; [to_ocall] renders a destination call of the model as a log entry.
+   Premises, all used: the buffer content is shorter than 2^63 bytes (i + 1 does not wrap; any Go slice), and the
+   script is long enough (one outcome per buffered byte for the flush, one more for WriteLevel's pass-through call;
+   a shorter script would let the model's "empty script = success" default speak for the environment).  No premise
+   on the bytes of the buffer or on l: Level(b) and byte(l) of the translation agree with the model on every value. *)
+Theorem C15_source_trigger : forall ans w n,
+  GoSem.len (GoExt.buf_bytes (TriggerSrc.TriggerLevelWriter_buf w)) < 9223372036854775808 ->
+  (length (GoExt.buf_bytes (TriggerSrc.TriggerLevelWriter_buf w)) <= n)%nat ->
+  let k := length (TriggerSrc.TriggerLevelWriter_calls w) in
+  let lw := TriggerSrc.TriggerLevelWriter_Writer_is_LevelWriter w in
+  (match trigger (SrcTriggerP.cfg_of w) (SrcTriggerP.abs_state w (SrcTriggerP.script_of ans k n)) with
+   | (s', cs, TOk) =>
+       TriggerSrc.trigger ans w =
+         GoSem.Ok (None, SrcTriggerP.upd_w w (s_buf s') (s_triggered s') (map (SrcTriggerP.to_ocall lw) cs)) /\
+       s_script s' = SrcTriggerP.script_of ans (k + length cs) (n - length cs) /\
+       (length cs <= length (GoExt.buf_bytes (TriggerSrc.TriggerLevelWriter_buf w)))%nat
+   | (s', cs, TErr e) =>
+       TriggerSrc.trigger ans w =
+         GoSem.Ok (SrcTriggerP.ans_err ans (k + length cs - 1),
+                   SrcTriggerP.upd_w w (s_buf s') (s_triggered s') (map (SrcTriggerP.to_ocall lw) cs)) /\
+       SrcTriggerP.err_code (SrcTriggerP.ans_err ans (k + length cs - 1)) = Some e /\
+       (1 <= length cs <= length (GoExt.buf_bytes (TriggerSrc.TriggerLevelWriter_buf w)))%nat /\
+       s_script s' = SrcTriggerP.script_of ans (k + length cs) (n - length cs)
+   | (s', cs, TPanic) => TriggerSrc.trigger ans w = GoSem.Panic
+   end) /\
+  (* Trigger() is trigger() between Lock and the deferred Unlock: the model's step for OTrigger *)
+  (match step (SrcTriggerP.cfg_of w) (SrcTriggerP.abs_state w (SrcTriggerP.script_of ans k n)) OTrigger with
+   | (s', cs, ROk m) =>
+       m = 0 /\
+       TriggerSrc.Trigger ans w =
+         GoSem.Ok (None, SrcTriggerP.upd_w w (s_buf s') (s_triggered s') (map (SrcTriggerP.to_ocall lw) cs))
+   | (s', cs, RErr m e) =>
+       m = 0 /\
+       TriggerSrc.Trigger ans w =
+         GoSem.Ok (SrcTriggerP.ans_err ans (k + length cs - 1),
+                   SrcTriggerP.upd_w w (s_buf s') (s_triggered s') (map (SrcTriggerP.to_ocall lw) cs)) /\
+       SrcTriggerP.err_code (SrcTriggerP.ans_err ans (k + length cs - 1)) = Some e /\
+       (1 <= length cs)%nat
+   | (s', cs, RPanic) => TriggerSrc.Trigger ans w = GoSem.Panic
+   end).
+Proof. exact SrcTriggerP.trigger_Trigger_src. Qed.
+
+(* WriteLevel.  [held_back w s' l]: the line was appended to buf (untriggered after the trigger phase and
+   l <= ConditionalLevel) - then the model's s_buf s' is Some (old content ++ byte(l) :: p), no destination call is
+   made, pool.Get is logged first iff buf was nil, and (len p, nil) is returned.  Otherwise the last call made is the
+   pass-through call (or the failing call of the flush): err is what the environment answered for it.  The count:
+   len p when held back; 0 when the error came from trigger() ([trigger_fails]); otherwise whatever count the
+   destination answered - the model, whose destination accepts everything on success, says len p resp. 0 there. *)
+Theorem C15_source_write_level : forall ans w l p n,
+  GoSem.len (GoExt.buf_bytes (TriggerSrc.TriggerLevelWriter_buf w)) < 9223372036854775808 ->
+  (length (GoExt.buf_bytes (TriggerSrc.TriggerLevelWriter_buf w)) < n)%nat ->
+  let k := length (TriggerSrc.TriggerLevelWriter_calls w) in
+  match write_level (SrcTriggerP.cfg_of w) (SrcTriggerP.abs_state w (SrcTriggerP.script_of ans k n)) l p with
+  | (s', cs, ROk m) =>
+      m = GoSem.len p /\
+      TriggerSrc.WriteLevel ans w l p =
+        GoSem.Ok ((if SrcTriggerP.held_back w s' l then GoSem.len p else SrcTriggerP.ans_n ans (k + length cs - 1), None),
+                  SrcTriggerP.wl_after w s' cs l) /\
+      (if SrcTriggerP.held_back w s' l then cs = []
+       else (1 <= length cs)%nat /\ SrcTriggerP.ans_err ans (k + length cs - 1) = None)
+  | (s', cs, RErr m e) =>
+      m = 0 /\
+      TriggerSrc.WriteLevel ans w l p =
+        GoSem.Ok ((if SrcTriggerP.trigger_fails (SrcTriggerP.cfg_of w)
+                        (SrcTriggerP.abs_state w (SrcTriggerP.script_of ans k n)) l then 0
+                   else SrcTriggerP.ans_n ans (k + length cs - 1),
+                   SrcTriggerP.ans_err ans (k + length cs - 1)),
+                  SrcTriggerP.wl_after w s' cs l) /\
+      SrcTriggerP.err_code (SrcTriggerP.ans_err ans (k + length cs - 1)) = Some e /\
+      (1 <= length cs)%nat /\ SrcTriggerP.held_back w s' l = false
+  | (s', cs, RPanic) => TriggerSrc.WriteLevel ans w l p = GoSem.Panic
+  end.
+Proof. exact SrcTriggerP.write_level_src. Qed.
+
+(* Close: returns nil, buf becomes nil, triggered is NOT reset; the log gains buf.Cap() and, iff the answered capacity
+   is within TriggerLevelWriterBufferReuseLimit, pool.Put ([close_calls]; nothing at all when buf is nil) - and the
+   model's step for OClose does exactly that to the state, without a destination call *)
+Theorem C15_source_close : forall limit ans w c sc,
+  TriggerSrc.Close limit ans w =
+    GoSem.Ok (None, SrcTriggerP.upd_w w None (TriggerSrc.TriggerLevelWriter_triggered w)
+                      (SrcTriggerP.close_calls limit ans w)) /\
+  step c (SrcTriggerP.abs_state w sc) OClose =
+    (SrcTriggerP.abs_state (SrcTriggerP.upd_w w None (TriggerSrc.TriggerLevelWriter_triggered w)
+                              (SrcTriggerP.close_calls limit ans w)) sc, [], ROk 0).
+Proof. exact SrcTriggerP.Close_src. Qed.
+
+(* every function of the unit is translated, none skipped *)
+Theorem C15_source_translated_set :
+  length TriggerSrc.translated_functions = 4%nat /\ length TriggerSrc.skipped_functions = 0%nat.
+Proof. exact SrcTriggerP.trigger_counts. Qed.
+
 Print Assumptions C15_refines_spec.
 Print Assumptions C15_frame_split_roundtrip.
 Print Assumptions C15_flush_fuel_suffices.
@@ -188,3 +287,7 @@ Print Assumptions C15_concurrent.
 Print Assumptions LockBracket.C15_lock_bracket_in_source.
 Print Assumptions LockBracket.C15_state_only_under_lock.
 Print Assumptions C15_blocked_thread_changes_nothing.
+Print Assumptions C15_source_trigger.
+Print Assumptions C15_source_write_level.
+Print Assumptions C15_source_close.
+Print Assumptions C15_source_translated_set.
